@@ -22,6 +22,11 @@ class Gen:
         self.big = big
         self.maxprogs = maxprogs
         self.stmts_rng = stmts
+        # identifier pools: mostly the plain one; sometimes names that differ only in case, or by a prefix / leading zero
+        k = rnd.random()
+        self.twins = k >= 0.7
+        self.vars = VARS if k < 0.7 else rnd.choice([['x0', 'X0', 'a', 'A', 'x1'], ['n', 'N', 'x0', 'i', 'I'],
+                                                     ['x', 'x1', 'x10', 'x01', 'xx'], ['a', 'aa', 'A', 'aA', 'x0']])
 
     def num(self):
         r = self.r
@@ -33,17 +38,17 @@ class Gen:
         r = self.r
         k = r.random()
         if k < 0.3:
-            return ('var', r.choice(VARS))
+            return ('var', r.choice(self.vars))
         if k < 0.5:
             return ('num', self.num())
         if k < 0.65:
-            return ('inc', r.choice(VARS), self.num() if self.big else r.randint(0, 3))
+            return ('inc', r.choice(self.vars), self.num() if self.big else r.randint(0, 3))
         if k < 0.8:
-            return ('dec', r.choice(VARS), self.num() if self.big else r.randint(0, 3))
+            return ('dec', r.choice(self.vars), self.num() if self.big else r.randint(0, 3))
         if progs and depth < 2:
             f = r.choice(progs)
             return ('call', f[0], [self.val(progs, depth + 1) for _ in f[1]])
-        return ('var', r.choice(VARS))
+        return ('var', r.choice(self.vars))
 
     def stmts(self, progs, labels, depth, n):
         out = []
@@ -51,26 +56,28 @@ class Gen:
         for _ in range(n):
             k = r.random()
             if k < 0.4:
-                out.append(['assign', r.choice(VARS), self.val(progs)])
+                out.append(['assign', r.choice(self.vars), self.val(progs)])
             elif k < 0.52 and depth < 2:
-                out.append(['loop', r.choice(VARS), self.stmts(progs, labels, depth + 1, r.randint(1, 3))])
+                out.append(['loop', r.choice(self.vars), self.stmts(progs, labels, depth + 1, r.randint(1, 3))])
             elif k < 0.62 and depth < 2:
-                v = r.choice(VARS)
+                v = r.choice(self.vars)
                 body = self.stmts(progs, labels, depth + 1, r.randint(1, 2)) + [['assign', v, ('dec', v, 1)]]
                 out.append(['while', v, body])
             elif k < 0.72:
                 l = 'm%d' % len(labels)
+                if self.twins and labels and r.random() < 0.5 and labels[-1].swapcase() not in labels:
+                    l = labels[-1].swapcase()
                 labels.append(l)
                 out.append(['label', l])
-                out.append(['assign', r.choice(VARS), self.val(progs)])
+                out.append(['assign', r.choice(self.vars), self.val(progs)])
             elif k < 0.82:
                 out.append(['goto', None])
             elif k < 0.94:
-                out.append(['if', r.choice(VARS), r.randint(0, 3), None])
+                out.append(['if', r.choice(self.vars), r.randint(0, 3), None])
             elif k < 0.96:
                 out.append(['stop'])
             else:
-                out.append(['assign', r.choice(VARS), self.val(progs)])
+                out.append(['assign', r.choice(self.vars), self.val(progs)])
         return out
 
     def fix(self, ss, labels):
@@ -100,9 +107,17 @@ class Gen:
             if r.random() < 0.12:
                 params = None
             else:
-                params = r.sample(VARS, r.randint(1, 3))
-            out = r.choice([None] + VARS) if params is not None else None
-            b = self.body(list(progs), r.randint(1, 5))
+                params = r.sample(self.vars, r.randint(1, 3))
+            out = r.choice([None] + self.vars) if params is not None else None
+            if params and r.random() < 0.2:
+                # tight frame: the body only mentions the ports, so the frame is no larger than the port list
+                saved, self.vars = self.vars, list(params)
+                if r.random() < 0.7:
+                    out = r.choice(params)
+                b = self.fix([['assign', r.choice(params), ('var', r.choice(params))] for _ in range(r.randint(1, 2))], [])
+                self.vars = saved
+            else:
+                b = self.body(list(progs), r.randint(1, 5))
             defs.append((name, params, out, b))
             progs = [p for p in progs if p[0] != name] + [(name, params or [])]
         main = self.body(list(progs), r.randint(*self.stmts_rng))
